@@ -202,6 +202,12 @@ func RunScenarios(t *testing.T, agg *Agg, n int, mk func(i int) *vsync.Config, k
 		go func(w int) {
 			defer wg.Done()
 			for i := range next {
+				if time.Now().After(agg.Run.Deadline()) {
+					// the run's time budget is used up: the scenario is not started and
+					// the run reports exhaustive=false
+					results[i] = &vsync.Result{Name: fmt.Sprintf("scenario-%d", i), BoundCompleted: -1, Cap: "not started: time budget exhausted"}
+					continue
+				}
 				outf := filepath.Join(dir, fmt.Sprintf("r%d.json", i))
 				// a worker that hangs (e.g. un-instrumented code blocked on a lock held by a
 				// parked thread) is killed after the run's budget; its scenario is then
